@@ -7,6 +7,7 @@ mod c08;
 mod csvfuzz;
 mod l1;
 mod oracle;
+mod ordersweep;
 mod record;
 mod replay;
 mod replay_csv;
@@ -30,6 +31,7 @@ fn main() {
         "c08sweep" => c08::main(rest),
         "c01sweep" => c01::main(rest),
         "session" => session::main(rest),
+        "ordersweep" => ordersweep::main(rest),
         "csvfuzz" => csvfuzz::main(rest),
         "universe" => universe::main(rest),
         "version" => println!("{:?} {:?}", precis_core::UNICODE_VERSION, precis_profiles::UNICODE_VERSION),
